@@ -65,20 +65,25 @@ Variable input : list N.
 Variable ci multi : bool.
 Let n := length input.
 
-Lemma D_le : (forall b p q, p <= n -> In q (Db input ci multi b p) -> q <= n) /\ (forall a p q, p <= n -> In q (Da input ci multi a p) -> q <= n).
+Lemma D_le xpath : (forall b, ok_b xpath b = true -> forall p q, p <= n -> In q (Db input ci multi b p) -> q <= n)
+  /\ (forall a, ok_a xpath a = true -> forall p q, p <= n -> In q (Da input ci multi a p) -> q <= n).
 Proof.
   apply branch_alt_ind.
-  - intros cs p q Hp H. cbn [Db] in H. apply lit_le in H. tauto.
-  - intros cs cap a IHa b IHb p q Hp H. cbn [Db] in H. apply in_flat_map in H as (m & Hm & H).
-    apply in_flat_map in Hm as (m1 & Hm1 & Hm). apply lit_le in Hm1. eapply IHb; [|exact H]. eapply IHa; [|exact Hm]. tauto.
-  - intros cs c k rel b IHb p q Hp H. cbn [Db] in H. apply in_flat_map in H as (m & Hm & H).
-    apply in_flat_map in Hm as (m1 & Hm1 & Hm). apply lit_le in Hm1. eapply IHb; [|exact H].
-    eapply (Dq_le input ci multi); [|exact Hm]. tauto.
-  - intros cs eol b IHb p q Hp H. cbn [Db] in H. apply in_flat_map in H as (m & Hm & H).
-    apply in_flat_map in Hm as (m1 & Hm1 & Hm). apply lit_le in Hm1. eapply IHb; [|exact H].
+  - intros cs _ p q Hp H. cbn [Db] in H. apply lit_le in H. tauto.
+  - intros cs cap a IHa b IHb Hok p q Hp H. cbn [ok_b] in Hok. apply andb_true_iff in Hok as [Hok Okb].
+    apply andb_true_iff in Hok as [_ Oka]. cbn [Db] in H. apply in_flat_map in H as (m & Hm & H).
+    apply in_flat_map in Hm as (m1 & Hm1 & Hm). apply lit_le in Hm1. eapply (IHb Okb); [|exact H]. eapply (IHa Oka); [|exact Hm]. tauto.
+  - intros cs c k rel b IHb Hok p q Hp H. cbn [ok_b] in Hok. apply andb_true_iff in Hok as [Hok Okb].
+    apply andb_true_iff in Hok as [_ Hk]. cbn [Db] in H. apply in_flat_map in H as (m & Hm & H).
+    apply in_flat_map in Hm as (m1 & Hm1 & Hm). apply lit_le in Hm1. eapply (IHb Okb); [|exact H].
+    eapply (Dq_le input ci multi); [exact Hk| |exact Hm]. tauto.
+  - intros cs eol b IHb Hok p q Hp H. cbn [ok_b] in Hok. apply andb_true_iff in Hok as [_ Okb].
+    cbn [Db] in H. apply in_flat_map in H as (m & Hm & H).
+    apply in_flat_map in Hm as (m1 & Hm1 & Hm). apply lit_le in Hm1. eapply (IHb Okb); [|exact H].
     eapply (Dan_le input ci multi); [|exact Hm]. tauto.
-  - intros b IHb p q Hp H. exact (IHb p q Hp H).
-  - intros b IHb a IHa p q Hp H. cbn [Da] in H. apply in_app_iff in H as [H|H]; eauto.
+  - intros b IHb Hok p q Hp H. exact (IHb Hok p q Hp H).
+  - intros b IHb a IHa Hok p q Hp H. cbn [ok_a] in Hok. apply andb_true_iff in Hok as [Okb Oka].
+    cbn [Da] in H. apply in_app_iff in H as [H|H]; eauto.
 Qed.
 End DB.
 
@@ -203,8 +208,42 @@ Proof.
 Qed.
 
 (* a quantified character *)
-Lemma p_quant_sym k t : p_quant (qsym k :: t) = PV (Some (qmin k, qmaxo k)) t.
-Proof. destruct k; reflexivity. Qed.
+Lemma sdigits_run : forall ds x t acc seen, forallb is_digit ds = true -> is_digit x = false ->
+  (ds <> [] \/ seen = true) ->
+  Parse.digits (ds ++ x :: t) acc seen = Some (fold_left (fun a d => a * 10 + (d - 48))%N ds acc, x :: t).
+Proof.
+  induction ds as [|d ds IH]; intros x t acc seen Hd Hx Hne.
+  - destruct Hne as [Hne| ->]; [contradiction|]. cbn [app Parse.digits fold_left]. rewrite Hx. reflexivity.
+  - cbn [forallb] in Hd. apply andb_true_iff in Hd as [Hd Ht]. cbn [app Parse.digits fold_left]. rewrite Hd.
+    apply IH; auto.
+Qed.
+Lemma p_quant_sym k t : okq k = true -> p_quant (qsym k :: qtl k ++ t) = PV (Some (qmin k, qmaxo k)) t.
+Proof.
+  destruct k as [| | |ds m]; intros Hk; try reflexivity.
+  assert (Hk' := Hk). cbn [okq] in Hk'. apply andb_true_iff in Hk' as [Hk' _]. apply andb_true_iff in Hk' as [Hk' _].
+  apply andb_true_iff in Hk' as [D1 Hm].
+  destruct (digs_split ds D1) as (d & dt & Eds & Dd & Dall). pose proof (digs_bound ds D1) as B1.
+  assert (Ne : ds <> []) by (rewrite Eds; discriminate).
+  cbn [qsym qtl p_quant]. destruct m as [| |d2]; rewrite <- !app_assoc; cbn [app].
+  - rewrite (sdigits_run ds 125%N t 0%N false Dall eq_refl (or_introl Ne)). fold (dec ds).
+    replace (umax <? dec ds)%N with false by (symmetry; apply N.ltb_ge; lia). reflexivity.
+  - rewrite (sdigits_run ds 44%N _ 0%N false Dall eq_refl (or_introl Ne)). fold (dec ds).
+    replace (umax <? dec ds)%N with false by (symmetry; apply N.ltb_ge; lia). reflexivity.
+  - apply andb_true_iff in Hm as [D2 Le]. apply N.leb_le in Le.
+    destruct (digs_split d2 D2) as (e & et & Ed2 & De & Dall2). pose proof (digs_bound d2 D2) as B2.
+    assert (Ne2 : d2 <> []) by (rewrite Ed2; discriminate).
+    rewrite (sdigits_run ds 44%N _ 0%N false Dall eq_refl (or_introl Ne)). fold (dec ds).
+    assert (E125 : (e =? 125)%N = false).
+    { unfold is_digit in De. apply andb_true_iff in De as [_ De]. apply N.leb_le in De. apply N.eqb_neq. lia. }
+    assert (Hd2 : d2 ++ 125%N :: t = e :: et ++ 125%N :: t) by (rewrite Ed2; reflexivity).
+    assert (M : forall (A : Type) (X : list N -> A) (Y : A), match d2 ++ 125%N :: t with 125%N :: t2 => X t2 | _ => Y end = Y).
+    { intros A X Y. rewrite Hd2. destruct e as [|pe]; [reflexivity|].
+      do 7 (try (destruct pe as [pe|pe|]); try reflexivity). discriminate. }
+    rewrite M.
+    rewrite (sdigits_run d2 125%N t 0%N false Dall2 eq_refl (or_introl Ne2)). fold (dec d2).
+    replace (dec d2 <? dec ds)%N with false by (symmetry; apply N.ltb_ge; lia).
+    replace (umax <? dec d2)%N with false by (symmetry; apply N.ltb_ge; lia). reflexivity.
+Qed.
 Lemma not_qmark_match {A} (l : list N) (X : list N -> A) (Y : A) : head_fine l ->
   match l with 63%N :: r3 => X r3 | _ => Y end = Y.
 Proof.
@@ -305,12 +344,12 @@ Proof.
         apply SE_run in Hk1; auto. apply SE_one in Hk.
         assert (k1 <= n) by (apply lit_le in Hk1; tauto).
         apply Semg in Hk; auto.
-        assert (k <= n) by (eapply (proj2 (D_le input ci multi)); eauto).
+        assert (k <= n) by (eapply (proj2 (D_le input ci multi xpath)); eauto).
         apply Semb in Hq; auto.
         apply in_flat_map. exists k. split; [|exact Hq]. apply in_flat_map. exists k1. auto.
       * intros H. apply in_flat_map in H as (k & Hk & Hq). apply in_flat_map in Hk as (k1 & Hk1 & Hk).
         assert (k1 <= n) by (apply lit_le in Hk1; tauto).
-        assert (k <= n) by (eapply (proj2 (D_le input ci multi)); eauto).
+        assert (k <= n) by (eapply (proj2 (D_le input ci multi xpath)); eauto).
         exists k. split; [|apply Semb; auto].
         apply SE_in. exists k1. split; [apply SE_run; auto|]. apply SE_one. apply Semg; auto. }
       intros m e Hm. cbn [DbO]. rewrite flat_map_assoc. change (g :: rs) with ([g] ++ rs).
@@ -318,22 +357,23 @@ Proof.
       * intros m0 e0 Hm0. apply OS_run. exact Hm0.
       * intros m0 e0 Hm0. apply (OS_app [g] rs (DaO input ci multi a) (DbO input ci multi b')); auto.
         -- intros m1 e1 Hm1. rewrite OS_one. apply Og. exact Hm1.
-        -- intros m1 q1 Hm1 Hq1. eapply (proj2 (DO_le ci input multi 0 Hfit)); eauto.
+        -- intros m1 q1 Hm1 Hq1. eapply (proj2 (DO_le xpath ci input multi 0 Hfit)); eauto.
       * intros m0 q0 Hm0 Hq0. apply lit_le in Hq0. tauto.
   - (* BQ *) intros cs c k rel b' IHb Hok post st acc fuel Ht Hf.
-    cbn [ok_b] in Hok. apply andb_true_iff in Hok as [Hok Okb]. apply andb_true_iff in Hok as [Hok Hrx].
+    cbn [ok_b] in Hok. apply andb_true_iff in Hok as [Hok Okb]. apply andb_true_iff in Hok as [Hok Hkq].
+    apply andb_true_iff in Hok as [Hok Hrx].
     apply andb_true_iff in Hok as [Ocs Oc]. cbn [show_b] in Hf |- *.
-    set (ropt := if rel then [63%N] else []) in *. set (rest := show_b b') in *.
-    assert (Lsh : length (cs ++ c :: qsym k :: ropt ++ rest) = length cs + 2 + length ropt + length rest).
+    set (ropt := if rel then [63%N] else []) in *. set (rest := show_b b') in *. set (qt := qtl k) in *.
+    assert (Lsh : length (cs ++ c :: qsym k :: qt ++ ropt ++ rest) = length cs + 2 + length qt + length ropt + length rest).
     { rewrite !app_length. cbn [length]. rewrite !app_length. lia. }
     rewrite Lsh in Hf.
-    replace ((cs ++ c :: qsym k :: ropt ++ rest) ++ post) with (cs ++ c :: qsym k :: ropt ++ rest ++ post)
+    replace ((cs ++ c :: qsym k :: qt ++ ropt ++ rest) ++ post) with (cs ++ c :: qsym k :: qt ++ ropt ++ rest ++ post)
       by (rewrite <- app_assoc; cbn [app]; rewrite <- !app_assoc; reflexivity).
     rewrite (p_branch_run xpath cs fuel st _ acc Ocs) by (cbn; auto; lia).
     destruct (fuel - length cs) as [|[|[|f3]]] eqn:Ef; try lia.
     destruct (ordinary_neq c Oc) as (_ & _ & _ & _ & _ & _ & _ & _ & _ & _ & _ & _ & A13 & A14).
     rewrite p_branch_S, A13, A14. cbn [orb].
-    rewrite p_piece_S, (p_atom_S xpath st f3 c _ Oc). cbn [pbind]. rewrite p_quant_sym. cbn [pbind].
+    rewrite p_piece_S, (p_atom_S xpath st f3 c _ Oc). cbn [pbind]. subst qt. rewrite (p_quant_sym k _ Hkq). cbn [pbind].
     assert (Hh : head_fine (rest ++ post)) by (apply (head_fine_b xpath); auto).
     assert (Epiece : (match ropt ++ rest ++ post with
                       | 63%N :: rest3 => if xpath then PV (RQuant (RChar c) (qmin k) (qmaxo k) false, st) rest3 else PI
@@ -552,6 +592,23 @@ Example ex_tree_q_runs :
   end = Ok true.
 Proof. vm_compute. reflexivity. Qed.
 
+(* non-vacuity with counted quantifiers: xa{2,3}(b{2}|c{1,}?)d{0,12} under XPath *)
+Definition ex_tree_br : alt :=
+  AOne (BQ [120%N] 97%N (QBr [50%N] (BrTo [51%N])) false
+          (BGrp [] true (ACons (BQ [] 98%N (QBr [50%N] BrExact) false (BEnd []))
+                               (AOne (BQ [] 99%N (QBr [49%N] BrOpen) true (BEnd []))))
+                (BQ [] 100%N (QBr [48%N] (BrTo [49%N; 50%N])) false (BEnd [])))).
+Example ex_tree_br_text :
+  show_a ex_tree_br = [120; 97; 123; 50; 44; 51; 125; 40; 98; 123; 50; 125; 124; 99; 123; 49; 44; 125; 63; 41;
+                       100; 123; 48; 44; 49; 50; 125]%N /\ ok_a true ex_tree_br = true.
+Proof. split; reflexivity. Qed.
+Example ex_tree_br_runs :
+  match regex_new true true (show_a ex_tree_br) []%N with
+  | Ok re => (is_match re [122; 120; 97; 97; 97; 98; 98; 100]%N, is_match re [120; 97; 98; 98]%N)
+  | _ => (Err ESyntax, Err ESyntax)
+  end = (Ok true, Ok false).
+Proof. vm_compute. reflexivity. Qed.
+
 (* the grammar half on this grammar: both parsers accept every printed tree *)
 Theorem grammar_accepted fl a :
   ok_a (f_xpath fl) a = true -> f_literal fl = false -> f_ws fl = false ->
@@ -660,8 +717,8 @@ Proof.
   - intros cs H. exact H.
   - intros cs cap a IHa b IHb H. apply andb_true_iff in H as [H Hb]. apply andb_true_iff in H as [H Ha].
     apply andb_true_iff in H as [Hcs _]. rewrite Hcs, (IHa Ha), (IHb Hb), orb_true_r. reflexivity.
-  - intros cs c k rel b IHb H. apply andb_true_iff in H as [H Hb]. apply andb_true_iff in H as [H _].
-    rewrite H, (IHb Hb), orb_true_r. reflexivity.
+  - intros cs c k rel b IHb H. apply andb_true_iff in H as [H Hb]. apply andb_true_iff in H as [H Hk].
+    apply andb_true_iff in H as [H _]. rewrite H, Hk, (IHb Hb), orb_true_r. reflexivity.
   - intros cs eol b IHb H. rewrite andb_false_r in H. discriminate.
   - intros b IHb H. exact (IHb H).
   - intros b IHb a IHa H. apply andb_true_iff in H as [H1 H2]. rewrite (IHb H1), (IHa H2). reflexivity.
